@@ -161,6 +161,7 @@ class EngineA:
         self.ttb = ttb
         self.prop = prop  # "C04" or "C19"
         self.steer = set(steer)
+        self._integer = False
 
     # ---------------------------------------------------------------- generation
     def run(self, run_seed: int, tier: str) -> RunResult:
@@ -187,10 +188,13 @@ class EngineA:
             nz = sw.sample(positions, k)
         nz = list(nz)
         sw.shuffle(nz)  # stored order of the sparse tensor: arbitrary
+        integer = sw.random() < 0.15  # integer-typed storage; such runs only ever write integral values
         cfg = {
             "shape": shape,
             "subs": [list(p) for p in nz],
-            "vals": [float(-(i + 1) - 0.25) for i in range(len(nz))],
+            "vals": [float(-(i + 1)) if integer else float(-(i + 1) - 0.25) for i in range(len(nz))],
+            "integer": integer,
+            "c_order": sw.random() < 0.2,
             "n_steps": sw.randint(4, 30 if tier == "thorough" else 24),
             "p_read": sw.choice([0.2, 0.35, 0.5]),
             "p_neg": sw.choice([0.0, 0.15, 0.3]),
@@ -204,6 +208,7 @@ class EngineA:
         if sum(cfg["w_ops"].values()) == 0:
             cfg["w_ops"]["w_subs"] = 1
         res.init = cfg
+        self._integer = integer
         world = self._start(cfg, res)
         if world is None:
             return self._finish(res)
@@ -246,10 +251,13 @@ class EngineA:
         if len(shape) == 0:
             world = {"m": m, "D": ttb.tensor(), "S": ttb.sptensor(), "lastop": "init"}
             return world
-        dense = ttb.tensor(np.asfortranarray(m.dense()), copy=True)
+        dt = np.int64 if cfg.get("integer") else float
+        arr = m.dense().astype(dt)
+        arr = np.ascontiguousarray(arr) if cfg.get("c_order") else np.asfortranarray(arr)
+        dense = ttb.tensor(arr, copy=True)
         if len(cfg["subs"]):
             subs = np.array(cfg["subs"], dtype=int).reshape(len(cfg["subs"]), len(shape))
-            vals = np.array(cfg["vals"], dtype=float).reshape(-1, 1)
+            vals = np.array(cfg["vals"], dtype=dt).reshape(-1, 1)
             sparse = ttb.sptensor(subs, vals, shape)
         else:
             sparse = ttb.sptensor(shape=shape)
@@ -335,7 +343,7 @@ class EngineA:
 
     def _next_val(self, counter) -> float:
         counter[0] += 1
-        return counter[0] + 0.5
+        return float(counter[0]) if self._integer else counter[0] + 0.5
 
     def _triggers(self, m: Model, step) -> set:
         """Names of known-finding triggers that ``step`` would hit in state ``m``."""
